@@ -9,6 +9,6 @@ mkdir -p $scratch/repo $scratch/home
 rsync -a --exclude .git /repo/ $scratch/repo/
 cp /verif/known_findings.json $scratch/home/
 (cd $scratch/repo && patch -p1 -s < $patch) || { echo PATCH-FAILED; exit 3; }
-out=$(GSVERIF_REPO=$scratch/repo GSVERIF_HOME=$scratch/home /verif/bin/gsverif checkall 2>&1)
+out=$(GSVERIF_REPO=$scratch/repo GSVERIF_HOME=$scratch/home ${GSVERIF_BIN:-/verif/bin/gsverif} checkall 2>&1)
 echo "DETECTED-BY: $(echo "$out" | grep '^VIOLATION' | sed 's/VIOLATION property=\([A-Z0-9]*\).*/\1/' | sort -u | tr '\n' ' ')"
 echo "$out" | grep -E "^(FAILED|RENAMED)" | sed "s#$scratch/repo/##g" | cut -c1-${2:-260}
